@@ -27,6 +27,8 @@ class ParseUnytExpr(Contract):
             e = SExpr.fresh(it, "parsed")
             from pyvc.unyt_domain import expr_str
             it.assume(z3.Length(expr_str(e.term)) >= 1)      # ASSUMED['sympy-str-nonempty']
+            # ghost: which expression this string was read as
+            it.__dict__.setdefault("parsed_exprs", []).append((a.unit_expr, e))
             return e
         return Opaque("parsed_non_expr")
 
